@@ -229,6 +229,49 @@ def check_case(ctx, case):
                           {'surface': surface, 'msg': o['msg']})
             return
         vals = check_relations(ctx, case, o['ok'], temps, surface)
+        if surface == 'incomplete' and len(case['Ts']) >= 2 and \
+                int(case['T_ref'] * 1000) % 2 == 0:
+            # ROUTE: the object has been through a merge that was refused (a
+            # twin with new temperatures before and after a conflicting value
+            # at a temperature both have).  It is still the correlation of
+            # ITS data: same stored data as before, and its own copy() --
+            # rebuilt from the stored data -- evaluates like it.
+            from vmon.core import clones, digests
+            from pgradd.ThermoChem import ThermochemIncomplete
+            victim = build(case, surface)
+            ts_ = sorted(case['Ts'])
+            tw = {ts_[0] - 7.5: 2.0, ts_[0]: case['Cps'][case['Ts'].index(
+                ts_[0])] + 1.0, ts_[-1] + 7.5: 3.0}
+            lo_, hi_ = (case['range'] if case.get('range') else
+                        (ts_[0], ts_[-1]))
+            twin = observe(ThermochemIncomplete, None, None, tw,
+                           case['T_ref'], (min(lo_, ts_[0] - 7.5,
+                                               case['T_ref']),
+                                           max(hi_, ts_[-1] + 7.5,
+                                               case['T_ref'])))
+            if 'ok' in twin:
+                before = digests.correlation_fields(victim)
+                uo = observe(victim.update, twin['ok'])
+                ctx.evals()
+                if 'exc' in uo:
+                    after = digests.correlation_fields(victim)
+                    if after != before:
+                        ctx.violation('a merge that was refused changed the '
+                                      'stored data of the object', dict(
+                                          case, surface=surface),
+                                      {'raised': uo['exc'],
+                                       'before': repr(before)[:300],
+                                       'after': repr(after)[:300]})
+                        return
+                    calls = [('%s(%r)' % (nm, T), lambda o_, nm=nm, T=T: repr(
+                        float(getattr(o_, nm)(T))))
+                        for nm in ('get_CpoR', 'get_HoRT', 'get_SoR')
+                        for T in temps[:3]]
+                    clones.agreement(ctx, dict(case, surface=surface,
+                                               route='after a refused merge'),
+                                     victim, calls, 'correlation object that '
+                                     'went through a refused merge', 'after')
+                    ctx.count('objects_checked_after_a_refused_merge')
         if int(case['T_ref'] * 1000) % 3 == 0 or case.get('long_table'):
             # copies and unpickled copies of the object are the same
             # functions (made before / after the object's first use)
